@@ -64,7 +64,10 @@ Definition analyse (length_limit : bool) (line0 : str) : fline :=
                     | [] => true   (* "" in "cC*!" *)
                     | c :: _ => contains_ch c (s "cC*!")
                     end in
-  let isNewComment := contains_ch bang fivechars && negb isComment0 in
+  (* stripped = line.lstrip(); bang_first = stripped.startswith("!") and len(line) - len(stripped) != 5 *)
+  let stripped := lstrip line0 in
+  let bang_first := starts_with (s "!") stripped && negb (n - length stripped =? 5) in
+  let isNewComment := (contains_ch bang fivechars || bang_first) && negb isComment0 in
   let isOMP := isComment0 && str_eqb (lower fivechars) (s "$omp") in
   let isComment := if isOMP then false else isComment0 in
   let label := if isOMP then [] else label0 in
